@@ -73,6 +73,14 @@ def correspondence(ctx):
             except Exception as e:  # noqa: BLE001
                 impl = "err:" + B.exc_name(e)
                 impl_c = None
+            rks = [r for c, r in cons if c != "star"]
+            if impl_c is not None and rks == sorted(rks) and not any(c == "star" for c, _ in cons):
+                # "returns a list that validation accepts" (of a version-sorted input): the REAL validation, on the real result
+                acc = B.res_bool(lambda: VersionConstraint.validate(list(out)))
+                if acc != "ok:true" and not (name == "maven"):
+                    d = B.describe(bench, cons, m)
+                    d.update({"result": [str(c) for c in out], "clause": "validate() refuses the simplified list: %s" % acc})
+                    ctx.disagree(stream, line, "validate(simplify(..)) = " + acc, "ok:true", True, d, spec="accepted by validation")
             ctx.count(stream, key=line, nontrivial=len(cons) >= 2,
                       branch="changed" if impl != "ok:" + B.cons_line(cons) else "unchanged",
                       error=impl[4:] if impl.startswith("err:") else None)
